@@ -3,6 +3,7 @@ package props
 import (
 	"fmt"
 	"os"
+	"path/filepath"
 	"reflect"
 	"sort"
 	"strings"
@@ -54,6 +55,9 @@ func keyPathsOf(c *Ctx) (map[string]string, []string, error) {
 // docFor builds a YAML document tree that contains `path` with the given leaf
 // value.  injectLevel -1: the minimal document (the leaf and the required top-level keys); docFilled: the object that
 // holds the leaf is filled in completely; >= 0: filled in, and an unknown key added at that object nesting level.
+// docInjectKey is the unknown key docFor injects (the strict family runs with more than one spelling)
+var docInjectKey = "zzz_unknown_key"
+
 const docFilled = -2
 const docSchemaNone = -3
 
@@ -95,7 +99,7 @@ func docFor(kinds map[string]string, path string, leaf any, injectLevel int) map
 			}
 		}
 		if objLevel == injectLevel {
-			m["zzz_unknown_key"] = "x"
+			m[docInjectKey] = "x"
 		}
 		return m
 	}
@@ -271,12 +275,32 @@ func runC16(c *Ctx) error {
 			continue
 		}
 		for lvl := 0; lvl < objectLevels(p); lvl++ {
+			// the same injection under a name of the kind other tools reserve for extensions (x-…): nfpm defines no
+			// such key either
+			docInjectKey = "x-verif-extension"
+			if _, xerr := parse(docFor(kinds, p, leaf, lvl), nil); xerr == nil {
+				b, _ := yaml.Marshal(docFor(kinds, p, leaf, lvl))
+				c.Rep.Find(report.Finding{Property: "C16", Family: "strict", Shape: "unknown-key-accepted:x-prefixed", What: "a document with an unknown key named x-… was accepted", Input: map[string]any{"path": p, "level": lvl, "document": string(b)}})
+			}
+			fam2.Eval(fmt.Sprintf("%s@%d|x-", p, lvl), true)
+			docInjectKey = "zzz_unknown_key"
 			doc := docFor(kinds, p, leaf, lvl)
 			_, err := parse(doc, nil)
 			fam2.Eval(fmt.Sprintf("%s@%d", p, lvl), true)
 			if err == nil {
 				b, _ := yaml.Marshal(doc)
 				c.Rep.Find(report.Finding{Property: "C16", Family: "strict", Shape: "unknown-key-accepted", What: "a document with an unknown key was accepted", Input: map[string]any{"path": p, "level": lvl, "document": string(b)}})
+			}
+			// the same document read from a file path (nfpm.ParseFile, what `nfpm package -f` does)
+			if b, merr := yaml.Marshal(doc); merr == nil {
+				fp := filepath.Join(c.Tmp, "c16-strict.yaml")
+				if os.WriteFile(fp, b, 0o644) == nil {
+					_, ferr := nfpm.ParseFileWithEnvMapping(fp, func(string) string { return "" })
+					fam2.Eval(fmt.Sprintf("%s@%d|file", p, lvl), true)
+					if ferr == nil {
+						c.Rep.Find(report.Finding{Property: "C16", Family: "strict", Shape: "unknown-key-accepted:from-a-file", What: "a configuration file with an unknown key was accepted by nfpm.ParseFile (the same document is rejected when it is read from a reader)", Input: map[string]any{"path": p, "level": lvl, "document": string(b)}})
+					}
+				}
 			}
 			// the same place, the unknown key spelled as the YAML null (`~: x`): a key the parser does not define either
 			if b, merr := yaml.Marshal(doc); merr == nil && strings.Contains(string(b), "zzz_unknown_key:") {
